@@ -30,6 +30,17 @@ Definition pr_tok (t : tok) : string :=
   | TClose => "c"
   end.
 
+(* how observed values are copied: g generated CopyTo, m map[string]any, ls / lb []string|[][]byte to
+   *[]string / *[][]byte, t StaticInspector *)
+Definition pr_via (v : via) : string :=
+  match v with
+  | VGenerated => "g"
+  | VMap => "m"
+  | VStrings true => "ls"
+  | VStrings false => "lb"
+  | VStatic => "t"
+  end.
+
 (* the assign operations carry the integer whose decimal rendering is the data *)
 Definition pr_op (o : op) : string :=
   match o with
@@ -52,6 +63,10 @@ Definition pr_op (o : op) : string :=
   | OCopyStrings reuse ss ds l _ =>
     (if reuse then "LI:" else "L:") ++ (if ss then "s" else "b") ++ (if ds then "s" else "b") ++ ":" ++
     join "," (map (fun d => "x" ++ hex_of_bytes d) l)
+  | OSourceCap d spare => "XC:" ++ hex_of_bytes d ++ ":" ++ nat_to_string spare
+  | CTruncate k => "T:" ++ nat_to_string k
+  | OCopyHeld v reuse ks _ =>
+    (if reuse then "HI:" else "H:") ++ pr_via v ++ ":" ++ join "," (map nat_to_string ks)
   end.
 
 (* ---------- printing observations ---------- *)
@@ -75,7 +90,8 @@ Fixpoint trace (tight : bool) (pr : state -> string) (st : state) (ops : list op
   end.
 
 Definition has_client (ops : list op) : bool :=
-  existsb (fun o => match o with CWrite _ _ _ | CAppend _ _ _ | CSetUnbuf _ _ _ | OBufferizeFrom _ _ => true | _ => false end) ops.
+  existsb (fun o => match o with CWrite _ _ _ | CAppend _ _ _ | CSetUnbuf _ _ _ | OBufferizeFrom _ _ | CTruncate _ => true
+                            | _ => false end) ops.
 Definition has_reset (ops : list op) : bool :=
   existsb (fun o => match o with OReset => true | _ => false end) ops.
 (* a CopyTo / buffered Assign into a destination that is not fresh *)
@@ -86,9 +102,17 @@ Definition has_reuse (ops : list op) : bool :=
 Definition has_builtin (ops : list op) : bool :=
   existsb (fun o => match o with OCopyMap _ _ _ | OCopyStrings _ _ _ _ _ | OSource _ _ => true | _ => false end) ops.
 
+(* a value with spare capacity under observation (a source made with it, or a value emptied by x = x[:0]) *)
+Definition has_spare (ops : list op) : bool :=
+  existsb (fun o => match o with OSourceCap _ _ | CTruncate _ => true | _ => false end) ops.
+(* a copy whose source fields are observed values *)
+Definition has_held (ops : list op) : bool :=
+  existsb (fun o => match o with OCopyHeld _ _ _ _ => true | _ => false end) ops.
+
 Definition case_line (id : string) (capname : string) (size : nat) (ops : list op) : string :=
   let tags := capname ++ (if has_client ops then ",client" else "") ++ (if has_reset ops then ",reset" else "") ++
-              (if has_reuse ops then ",reuse" else "") ++ (if has_builtin ops then ",builtin" else "") in
+              (if has_reuse ops then ",reuse" else "") ++ (if has_builtin ops then ",builtin" else "") ++
+              (if has_spare ops then ",spare" else "") ++ (if has_held ops then ",held" else "") in
   id ++ tab ++ tags ++ tab ++
   "cap=" ++ nat_to_string size ++ ";" ++ join ";" (map pr_op ops) ++ tab ++
   join "|" (trace true pr_state_model (init size) ops) ++ tab ++
@@ -101,7 +125,8 @@ Definition adds (o : op) : nat :=
   match o with
   | OBufferize _ _ | OBufferizeString _ _ | OAssignBytes _ _ | OAssignStr _ _ => 1
   | OCopyTo fs _ | OCopyInto fs _ => List.length fs
-  | OBufferizeFrom _ _ | OAssignBytesInto _ _ _ | OSource _ _ => 1
+  | OBufferizeFrom _ _ | OAssignBytesInto _ _ _ | OSource _ _ | OSourceCap _ _ => 1
+  | OCopyHeld _ _ ks _ => List.length ks
   | OCopyMap _ ts _ => 2 * List.length (items_of_toks ts)
   | OCopyStrings _ _ _ l _ => 2 * List.length l
   | _ => 0
@@ -129,7 +154,7 @@ Definition first_len (ops : list op) : nat :=
   | OBufferize d _ :: _ | OBufferizeString d _ :: _ | OAcqRel d _ :: _
   | OAssignBytes d _ :: _ | OAssignStr d _ :: _ => List.length d
   | OCopyTo ((_, d) :: _) _ :: _ | OCopyInto ((_, d) :: _) _ :: _ => List.length d
-  | OSource _ d :: _ | OCopyStrings _ _ _ (d :: _) _ :: _ => List.length d
+  | OSource _ d :: _ | OCopyStrings _ _ _ (d :: _) _ :: _ | OSourceCap d _ :: _ => List.length d
   | OCopyMap _ ts _ :: _ => match items_of_toks ts with (_, _, d) :: _ => List.length d | [] => 1 end
   | _ => 1
   end.
@@ -192,6 +217,51 @@ Definition enum_builtin_with (two : bool) (befores : list (list op)) : list (lis
 Definition enum_builtin (tier1 : bool) : list (list op) :=
   enum_builtin_with false (builtin_before tier1) ++
   (if tier1 then enum_builtin_with true (builtin_before false) else []).
+
+(* ---------- sources with spare capacity: [source] ++ [copy; copy] ++ [after] ---------- *)
+(* value 0 is a string of the client, value 1 the []byte under test:
+   empty but allocated; filled below its capacity; filled to its capacity and emptied by x = x[:0];
+   a value handed out by the buffer and emptied; a source without spare capacity (the base line) *)
+Definition spare_sources : list (list op) :=
+  [ [OSource true (b "id"); OSourceCap (b "") 8];
+    [OSource true (b "id"); OSourceCap (b "ab") 6];
+    [OSource true (b "id"); OSource false (b "uvw"); CTruncate 1];
+    [OSource true (b "id"); OBufferize (b "ab") 0; CTruncate 1];
+    [OSource true (b "id"); OSourceCap (b "ab") 0] ].
+
+(* one copy of value 1 (with value 0 where the type has a string field) *)
+Definition spare_copies (reuse : bool) : list op :=
+  [ OBufferizeFrom 1 0;                          (* ByteBuffer.Bufferize of the value itself *)
+    OCopyHeld VGenerated reuse [1] 0;            (* TestHistory{Comment} *)
+    OCopyHeld VGenerated reuse [0; 1] 0;         (* TestObject{Id, Name} *)
+    OCopyHeld VGenerated reuse [0; 1; 1] 0;      (* TestObject{Id, Name, Finance.History[i].Comment}: two fields hold it *)
+    OCopyHeld VGenerated reuse [1; 1; 0; 1] 0;   (* TestObject1{ByteSlice, *ByteSlicePtr, NestedStruct.S, NestedStruct.B} *)
+    OCopyHeld VMap reuse [0; 1] 0;
+    OCopyHeld (VStrings false) reuse [1] 0;
+    OCopyHeld (VStrings true) reuse [1; 1] 0;
+    OCopyHeld VStatic reuse [1] 0 ].
+
+(* n = number of values so far; the second copy's values are the last ones; value 1 is the source *)
+Definition spare_after (n m : nat) : list op :=
+  [ CAppend (n - 1) (b "Q") 0;          (* growth of the last copy *)
+    CAppend (n - m - 1) (b "QQ") 0;      (* ... of the last value of the first copy *)
+    CAppend 1 (b "Z") 0;                 (* ... of the source, inside its spare capacity *)
+    CSetUnbuf (n - 1) (b "5") 0; CSetUnbuf 1 (b "123456789") 0;
+    OBufferizeFrom (n - 1) 0; OBufferize (b "ab") 0 ].
+
+Definition enum_spare (tier1 : bool) : list (list op) :=
+  flat_map (fun src : list op =>
+    flat_map (fun c1 : op =>
+      flat_map (fun c2 : op =>
+        let pre := (src ++ [c1; c2])%list in
+        let n := count_adds pre in
+        map (fun a => (pre ++ [a])%list) (spare_after n (adds c2)))
+        (* the same copy again (into the destination used before), or the plain Bufferize of the value *)
+        (if tier1 then spare_copies true
+         else [match c1 with OCopyHeld v _ ks e => OCopyHeld v true ks e | o => o end;
+               match c1 with OBufferizeFrom _ _ => OCopyHeld VGenerated false [1] 0 | _ => OBufferizeFrom 1 0 end]))
+      (spare_copies false))
+    spare_sources.
 
 (* ---------- random histories ---------- *)
 Definition rnd_bytes (s : rng) (maxlen : nat) : list ascii * rng :=
@@ -324,6 +394,54 @@ Fixpoint rnd_cases2 (count : nat) (s : rng) (idx : nat) : list string :=
     case_line ("q" ++ nat_to_string idx) cn cv ops :: rnd_cases2 c s3 (S idx)
   end.
 
+(* ---------- random histories with sources that have spare capacity, emptied values and copies of observed values ---------- *)
+Fixpoint rnd_ks (cnt : nat) (n : nat) (s : rng) : list nat * rng :=
+  match cnt with
+  | O => ([], s)
+  | S c => let '(k, s1) := rng_nat s n in let '(r, s2) := rnd_ks c n s1 in (k :: r, s2)
+  end.
+
+Definition rnd_via (s : rng) : via * rng :=
+  let '(c, s1) := rng_nat s 8 in
+  (match c with 0 | 1 | 2 => VGenerated | 3 => VMap | 4 => VStrings false | 5 => VStrings true | 6 => VStatic
+           | _ => VGenerated end, s1).
+
+Definition rnd_op3 (s : rng) (n : nat) : op * rng :=
+  let '(c, s1) := rng_nat s (if Nat.eqb n 0 then 3 else 14) in
+  match c with
+  | 0 => let '(sp, s2) := rng_nat s1 9 in (OSourceCap (b "") sp, s2)
+  | 1 => let '(d, s2) := rnd_bytes s1 5 in let '(sp, s3) := rng_nat s2 7 in (OSourceCap d sp, s3)
+  | 2 => let '(d, s2) := rnd_bytes s1 3 in (OSource true d, s2)
+  | 3 | 4 => let '(k, s2) := rng_nat s1 n in (CTruncate k, s2)
+  | 5 | 6 | 7 =>
+    let '(v, s2) := rnd_via s1 in
+    let '(cnt, s3) := rng_nat s2 4 in
+    let '(ks, s4) := rnd_ks (match v with VStatic => 1 | _ => S cnt end) n s3 in
+    let '(re, s5) := rng_nat s4 3 in
+    (OCopyHeld v (Nat.eqb re 0) ks 0, s5)
+  | 8 => let '(k, s2) := rng_nat s1 n in (OBufferizeFrom k 0, s2)
+  | 9 => let '(k, s2) := rng_nat s1 n in let '(d, s3) := rnd_bytes s2 3 in (CAppend k d 0, s3)
+  | _ => rnd_op2 s1 n
+  end.
+
+Fixpoint rnd_ops3 (len : nat) (s : rng) (n : nat) : list op * rng :=
+  match len with
+  | O => ([], s)
+  | S l => let '(o, s1) := rnd_op3 s n in
+           let '(r, s2) := rnd_ops3 l s1 (n + adds o) in (o :: r, s2)
+  end.
+
+Fixpoint rnd_cases3 (count : nat) (s : rng) (idx : nat) : list string :=
+  match count with
+  | O => []
+  | S c =>
+    let '(len, s1) := rng_nat s 24 in
+    let '(ops, s2) := rnd_ops3 (S len) s1 0 in
+    let '(ci, s3) := rng_nat s2 3 in
+    let '(cn, cv) := nth ci (caps_of ops) ("cap0", 0) in
+    case_line ("p" ++ nat_to_string idx) cn cv ops :: rnd_cases3 c s3 (S idx)
+  end.
+
 Fixpoint number {A} (i : nat) (l : list A) : list (nat * A) :=
   match l with [] => [] | x :: r => (i, x) :: number (S i) r end.
 
@@ -342,4 +460,10 @@ Definition cases (tier : Z) (seed : Z) : list string :=
               map (fun c : string * nat => case_line ("m" ++ nat_to_string i ++ fst c) (fst c) (snd c) ops)
                   (caps_of ops))
            (number 0 (enum_builtin (negb (Z.eqb tier 0)))) ++
-  rnd_cases2 (if Z.eqb tier 0 then 60 else 1500) (rng_of_seed (seed + 7)%Z) 0.
+  rnd_cases2 (if Z.eqb tier 0 then 60 else 1500) (rng_of_seed (seed + 7)%Z) 0 ++
+  flat_map (fun p : nat * list op =>
+              let '(i, ops) := p in
+              map (fun c : string * nat => case_line ("s" ++ nat_to_string i ++ fst c) (fst c) (snd c) ops)
+                  (if Z.eqb tier 0 then [("cap0", 0); ("capR", 4096)] else caps_of ops))
+           (number 0 (enum_spare (negb (Z.eqb tier 0)))) ++
+  rnd_cases3 (if Z.eqb tier 0 then 60 else 1500) (rng_of_seed (seed + 13)%Z) 0.
